@@ -149,6 +149,12 @@ func c03Cases(tier string, seed int64) []core.Case {
 			}})
 		}
 	}
+	for _, ms := range []uint32{256, 1024, 8192} {
+		ms := ms
+		cases = append(cases, core.Case{ID: fmt.Sprintf("held-payload/msize=%d", ms), Run: func(ctx *core.Ctx) core.Result {
+			return c03HeldPayload(ctx, ms != 1024, ms)
+		}})
+	}
 	cases = append(cases, sharedFlushCases("C03", tier)...)
 	return cases
 }
@@ -1151,4 +1157,122 @@ func hexn(b []byte) string {
 		return fmt.Sprintf("%x…(+%d)", b[:300], len(b)-300)
 	}
 	return fmt.Sprintf("%x", b)
+}
+
+// c03HeldPayload: a request that carries data stays with the implementation while the connection goes on working —
+// many times the server's receive buffer passes by, each request a whole segment of its own, so that the buffer runs
+// out on message boundaries — and is answered at last: what the implementation then finds in its request is still the
+// payload that was sent under that tag, and every filler got its own answer.
+func c03HeldPayload(ctx *core.Ctx, dotu bool, msize uint32) core.Result {
+	var res core.Result
+	s := NewSess(Config{Dotu: dotu, Msize: msize})
+	c := s.Dial()
+	defer c.Hangup()
+	ver := "9P2000"
+	if dotu {
+		ver = "9P2000.u"
+	}
+	if r, err := c.Version(msize, ver, W); err != nil || r.Msg == nil || r.Msg.Msize != msize {
+		res.Inconclusive = "c03: version failed"
+		return res
+	}
+	tag := uint16(0)
+	rpc := func(m *wire.Msg) *wire.Msg {
+		tag++
+		m.Tag = tag
+		r, err := c.Rpc(m, W)
+		if err != nil || r.Msg == nil {
+			return nil
+		}
+		return r.Msg
+	}
+	if a := rpc(&wire.Msg{Type: wire.Tattach, Fid: 1, Afid: wire.NOFID, Uname: "root", Nuname: 0}); a == nil || a.Type != wire.Rattach {
+		res.Inconclusive = "c03: attach failed"
+		return res
+	}
+	if w := rpc(&wire.Msg{Type: wire.Twalk, Fid: 1, Newfid: 2, Wname: []string{"f"}}); w == nil || w.Type != wire.Rwalk {
+		res.Inconclusive = "c03: walk failed"
+		return res
+	}
+	if o := rpc(&wire.Msg{Type: wire.Topen, Fid: 2, Mode: 2}); o == nil || o.Type != wire.Ropen {
+		res.Inconclusive = "c03: open failed"
+		return res
+	}
+	r := core.NewRand(ctx.Seed, fmt.Sprintf("c03held/%v/%d", dotu, msize))
+	L := int(msize) - wire.IOHDRSZ
+	for round := 0; round < 6 && len(res.Violations) == 0; round++ {
+		ctx.Beat()
+		seq0 := s.Log.Seq()
+		nheld := 1 + round%3
+		type held struct {
+			m    *wire.Msg
+			plan *script.Plan
+		}
+		var hs []held
+		for i := 0; i < nheld; i++ {
+			tag++
+			data := r.Bytes(1 + r.Intn(L))
+			for j := range data {
+				data[j] = data[j]&0x1F | byte(0xA0+0x20*(i%3)) // recognisably a held payload
+			}
+			m := &wire.Msg{Type: wire.Twrite, Tag: tag, Fid: 2, Offset: uint64(round*100 + i), Count: uint32(len(data)), Data: data}
+			p := script.NewPlan()
+			p.Gate, p.Entered = make(chan struct{}), make(chan struct{})
+			s.Ops.SetPlan(c.ID, m.Tag, p)
+			_ = c.Send(m)
+			select {
+			case <-p.Entered:
+			case <-time.After(W):
+				res.Inconclusive = "c03: held write never started"
+				return res
+			}
+			hs = append(hs, held{m, p})
+		}
+		// the fillers: more than nine receive buffers' worth (the buffer is 8 x msize), one request per segment
+		sent := 0
+		fill := 0
+		for sent < 9*8*int(msize)/(1+round%2*3) {
+			n := L - r.Intn(1+L/8)
+			if round%3 == 2 {
+				n = 1 + r.Intn(L)
+			}
+			data := r.Bytes(n)
+			for j := range data {
+				data[j] &= 0x1F // a filler's bytes
+			}
+			rp := rpc(&wire.Msg{Type: wire.Twrite, Fid: 2, Offset: uint64(fill), Count: uint32(n), Data: data})
+			res.Evals++
+			fill++
+			if rp == nil || rp.Type != wire.Rwrite || rp.Count != uint32(n) {
+				res.Violate("C03;held-payload;filler-answer", fmt.Sprintf("filler write %d of %d bytes behind %d held writes was answered %v", fill, n, nheld, rp), nil)
+				break
+			}
+			sent += n + 23
+		}
+		for i := len(hs) - 1; i >= 0; i-- {
+			close(hs[i].plan.Gate)
+		}
+		for _, h := range hs {
+			rp, err := c.WaitTag(h.m.Tag, W)
+			if err != nil || rp.Msg == nil || rp.Msg.Type != wire.Rwrite || rp.Msg.Count != h.m.Count {
+				res.Violate("C03;held-payload;reply", fmt.Sprintf("a write held while %d bytes of other requests passed was answered %v", sent, rp), nil)
+			}
+		}
+		c.Quiesce(W)
+		late := map[uint16]string{}
+		for _, e := range s.Log.Snapshot(seq0) {
+			if e.Conn == c.ID && e.Kind == "latehash" {
+				late[e.Tag] = e.Args
+			}
+		}
+		for i, h := range hs {
+			want := script.HashBytes(h.m.Data)
+			if got, ok := late[h.m.Tag]; ok && got != want {
+				res.Violate("C03;held-payload;payload-changed", fmt.Sprintf("held write %d of %d (msize %d): when the implementation answered, after %d bytes of later requests, its request no longer carried the %d bytes sent under its tag (digest %s, sent %s)", i, nheld, msize, sent, len(h.m.Data), got, want), map[string]interface{}{"msize": msize, "dotu": dotu, "round": round})
+			}
+		}
+		res.Sig(fmt.Sprintf("held-payload|%v|%d|%d|%d", dotu, msize, nheld, round%3))
+	}
+	res.Sample(map[string]interface{}{"scenario": "writes held while the receive buffer is used up many times", "msize": msize, "dotu": dotu})
+	return res
 }
